@@ -34,7 +34,7 @@ pub fn check(case: &Case, obs: &mut Obs) -> Verdict {
         return Verdict::Skipped("options not available in this feature set");
     }
     let trailing = case.nums[0] == 1;
-    let f1 = textwrap::fill(p, o1.build());
+    let f1 = o1.fill(p);
     obs.calls += 1;
     if f1.split(o1.le()).count() < 2 {
         return Verdict::Skipped("filled form has fewer than two lines (indents not observable)");
@@ -43,11 +43,11 @@ pub fn check(case: &Case, obs: &mut Obs) -> Verdict {
     if trailing {
         input.push_str(o1.le());
     }
-    let got = textwrap::refill(&input, o2.build());
+    let got = o2.refill(&input);
     let mut o2x = o2.clone();
     o2x.ii = o1.ii.clone();
     o2x.si = o1.si.clone();
-    let mut want = textwrap::fill(p, o2x.build());
+    let mut want = o2x.fill(p);
     if trailing {
         want.push_str(o2.le());
     }
@@ -59,14 +59,14 @@ pub fn check(case: &Case, obs: &mut Obs) -> Verdict {
         return Verdict::Violated(format!("refill(fill(t,o1),o2) = {:?}, expected fill(t, o2 with o1's indents) = {:?}; input {:?}", got, want, input));
     }
     // independence of the first width
-    let f1b = textwrap::fill(p, o1b.build());
+    let f1b = o1b.fill(p);
     obs.calls += 1;
     if f1b.split(o1b.le()).count() >= 2 {
         let mut input_b = f1b;
         if trailing {
             input_b.push_str(o1b.le());
         }
-        let got_b = textwrap::refill(&input_b, o2.build());
+        let got_b = o2.refill(&input_b);
         obs.calls += 1;
         if got_b != got {
             return Verdict::Violated(format!("refill result depends on the width of its input: {:?} vs {:?}", got, got_b));
